@@ -694,9 +694,17 @@ func (e *Explorer) intrinsic(it *Interp, name string, args []Value) Value {
 		it.takeEpoch(roots)
 		return nil
 	case "vnSharedWrites":
-		return int64(len(it.sharedWrites))
+		return int64(len(it.sharedWrites) + len(it.lockConflicts()))
 	case "vnSharedWriteSites":
-		return strings.Join(dedup(it.sharedWrites), "; ")
+		return strings.Join(append(dedup(it.sharedWrites), it.lockConflicts()...), "; ")
+	case "vnTogether":
+		// two goroutines of the native replay; here one after the other (the write-set /
+		// lockset oracle does not depend on the interleaving)
+		it.callValue(args[0], nil)
+		it.phase++
+		it.callValue(args[1], nil)
+		it.phase++
+		return nil
 	case "vnOnDivergence":
 		it.onDivSet = true
 		it.onDivLabel = args[0].(string)
